@@ -7,6 +7,7 @@ from .. import paths
 from ..core import FUNC, call_attr, calls_in, const, dotted, is_const, kwarg, norm, text, walk_local
 
 EXPLANATION = [
+    'C15.one-shot: no name bound to a generator expression or to filter() / map() / zip() / reversed() / enumerate() is read in more than one consuming position or inside a loop that evaluates it repeatedly: such an iterator is empty after its first walk.',
     'C15.walrus: no assignment expression in bumble.keys binds the result of a comparison (`(t := x is not None)`): optional fields read from the file keep their stored value.',
     'C15.zero-valid: the optional integer-valued fields of the stored key objects (address_type, ediv) are tested for presence with `is None` everywhere in keys / device / smp, never by truthiness or `x or default`: address type 0 (public) and EDIV 0 read back as stored.',
     'C15.update-precedence: JsonKeyStore.update merges the new fields into the stored entry (stored.update(new)), so later updates override earlier ones.',
@@ -255,7 +256,13 @@ def walrus_rule(ctx):
     g.walrus_compare(ctx, 'C15.walrus', ['bumble.keys'])
 
 
+def one_shot_rule(ctx):
+    from ..generic_rules import one_shot_iterators
+    one_shot_iterators(ctx, 'C15.one-shot', ['bumble.keys'])
+
+
 RULES = [
+    ('C15.one-shot', one_shot_rule),
     ('C15.walrus', walrus_rule),
     ('C15.zero-valid', zero_valid_rule),
     ('C15.update-precedence', update_precedence),
